@@ -7,6 +7,7 @@
 //   H <id> <step> <step> ...          a HISTORY of loops in this process; steps (see do_H): ordinary loops that must be
 //                                      complete, loops whose body throws (caller catches), nested loops with a failing inner loop
 //   S <id> <nlo> <nhi> <box_ms>        join stress: short loops of trivial bodies for box_ms; every index must have run when the call returns
+//   G <id> <type> <n> <B>              giant loop (B = 0: parallel_for, 64: parallel_in_blocks_of<64>) (top binades of a 32-bit index type), trivial body, exact oracle: shared bitmap
 //   M <id> <distance>                  parallel_foreach over <distance> unsigned chars of an untouched NORESERVE mapping
 //   T <id> <n> <prefill> <park>        (internal backend only) recorded ITaskSet(n) added through the enkiTS
 //                                      API with <prefill> trivial sets already in the caller's pipe and, if
@@ -453,6 +454,53 @@ static void do_H(const char *id, const std::vector<std::string> &steps)
   fflush(stdout);
 }
 
+// ------------------------------------------------------------------ G: giant loops with an exact oracle that scales
+// n up to the maximum of a 32-bit index type.  One bit per index in a shared bitmap, set with an atomic fetch_or whose
+// old value tells whether the index had already been run (duplicate); after the return the population count tells
+// how many are missing.  n/8 bytes of memory (512 MB at 2^32-1), ~1 ns per index and thread.
+template <typename I, int BS>
+static void do_G(const char *id, const char *nstr, bool is_signed)
+{
+  I n; u64 npos;
+  if (is_signed) { i64 v = strtoll(nstr, 0, 10); n = (I)v; npos = v > 0 ? (u64)v : 0; }
+  else { u64 v = strtoull(nstr, 0, 10); n = (I)v; npos = v; }
+  size_t words = (size_t)(npos / 64 + 1);
+  std::atomic<u64> *bm = (std::atomic<u64> *)calloc(words, sizeof(u64));
+  if (!bm) { printf("%s no-memory\n", id); fflush(stdout); return; }
+  reset_slots();
+  FCase c{npos, 0, true};
+  {
+    Armed a(8);
+    auto mark = [&](I i) {
+      u64 k = (u64)i;
+      if (i < I(0) || k >= npos) extra_index(c, (i64)i, k);
+      u64 bit = 1ULL << (k & 63);
+      u64 old = bm[k >> 6].fetch_or(bit, std::memory_order_relaxed);
+      Slot &s = my_slot();
+      s.cnt++;
+      if (old & bit) s.sum++;          // this index had already been run
+    };
+    if (BS == 0) parallel_for(n, mark);
+    else parallel_in_blocks_of<(BS ? BS : 1)>(n, [&](I b, I e) {
+      if (b < I(0) || !(b < e) || (u64)e > npos || (u64)e - (u64)b > (u64)BS) extra_block((i64)b, (i64)e, (u64)b, (u64)e, nstr, BS);
+      for (I k = b; k < e; ++k) mark(k);
+    });
+  }
+  u64 cnt = 0, dup = 0, have = 0; long long first_missing = -1;
+  for (auto &s : g_slots) { cnt += (u64)s.cnt; dup += s.sum; }
+  for (size_t w = 0; w < words; ++w) {
+    u64 v = bm[w].load(std::memory_order_relaxed);
+    have += (u64)__builtin_popcountll(v);
+    if (first_missing < 0 && v != ~0ULL) {
+      for (int b = 0; b < 64; ++b) { u64 k = (u64)w * 64 + b; if (k < npos && !(v >> b & 1)) { first_missing = (long long)k; break; } }
+    }
+  }
+  free((void *)bm);
+  if (cnt == npos && dup == 0 && have == npos) printf("%s cnt=%llu ok\n", id, cnt);
+  else printf("%s cnt=%llu BAD indices_run_twice=%llu indices_never_run=%llu first_never_run=%lld n=%llu\n", id, cnt, dup, npos - have, first_missing, npos);
+  fflush(stdout);
+}
+
 // ------------------------------------------------------------------ S: join stress (aimed at oversubscribed internal backend)
 // Thousands of short loops with a trivial body in a time box.  Round r writes r into a HEAP array slot per index; when
 // parallel_for returns every slot of [0,n) must hold r (plain reads, no further synchronisation): a slot still holding an
@@ -631,6 +679,18 @@ int main(int argc, char **argv)
       else { printf("%s bad-type\n", id); fflush(stdout); }
     } else if (kind[0] == 'E') {
       do_E(id, atol(a), atol(b), atol(c));
+    } else if (kind[0] == 'G') {
+      // time box for the whole family in this process (d = budget in ms, counted from the first G case): the loops are
+      // CPU-bound, on a loaded machine the later (larger) ones are skipped rather than waited for
+      static long long g_first = 0; if (!g_first) g_first = now_ms();
+      long long budget = atoll(d);
+      if (budget > 0 && now_ms() - g_first > budget) { printf("%s skipped-timebox\n", id); fflush(stdout); continue; }
+      std::string ty = a; int bs = atoi(c);
+      if (ty == "i" && bs == 0) do_G<int, 0>(id, b, true);
+      else if (ty == "u" && bs == 0) do_G<unsigned, 0>(id, b, false);
+      else if (ty == "i" && bs == 64) do_G<int, 64>(id, b, true);
+      else if (ty == "u" && bs == 64) do_G<unsigned, 64>(id, b, false);
+      else { printf("%s bad-type\n", id); fflush(stdout); }
     } else if (kind[0] == 'S') {
       do_S(id, atoi(a), atoi(b), atoi(c), T);
     } else if (kind[0] == 'M') {
